@@ -145,6 +145,73 @@ def run(prog, chk):
         chk.ob("C07.chain", "KSI_SignatureBuilder_close:addRootLevel()<=sorted", True,
                "addRootLevel does not pick its chain by position: no ordering needed", loc=fl.loc(), fn=fl, nontrivial=False)
 
+    # the level is written into the first link IN PLACE: the chains of a signature built from a reply are the builder's own objects, not
+    # the reply's (an asynchronous handle keeps its reply, a second KSI_AsyncHandle_getSignature would find the level already added)
+    chk.rule("C07.private", "chains that close() edits in place are private copies, never objects shared with the reply", floor=1)
+    inplace = None
+    seen_f, work_f = set(), ["addRootLevel"]
+    while work_f:
+        nm = work_f.pop()
+        for g in prog.functions.get(nm, []):
+            if g.unit != "signature_builder.c" or g.name in seen_f:
+                continue
+            seen_f.add(g.name)
+            for b, i, n in g.calls():
+                if re.match(r"^KSI_(HashChainLink|AggregationHashChain)_set\w+$", n.get("fn") or ""):
+                    inplace = inplace or "%s at %s" % (n["fn"], g.loc(g.elem_line(b, i)))
+                elif n.get("fn"):
+                    work_f.append(n["fn"])
+
+    def fresh(f, b, i, e, depth=0):
+        """None if the value is an object made for this use, else the reason it is shared"""
+        pv = provenance(f, b, i, e)
+        alts, lvl, curr = [], 0, ""
+        for ch in pv:           # alternatives are separated by '|' outside any parentheses
+            lvl += (ch == "(") - (ch == ")")
+            if ch == "|" and lvl == 0:
+                alts.append(curr)
+                curr = ""
+            else:
+                curr += ch
+        alts.append(curr)
+        for alt in [x.strip() for x in alts]:
+            if alt in ("NULL", "const:0"):
+                continue
+            m = re.match(r"^(\w+)\(", alt)
+            if not m:
+                return "comes from %s" % alt
+            callee = m.group(1)
+            if re.search(r"_(new|clone|parse\w*|fromTlv|extract)$", callee):
+                continue
+            if re.search(r"_ref$|_elementAt$|_get\w+$", callee):
+                return "is the very object held elsewhere (%s)" % alt[:90]
+            k = re.search(r"@(\d+)$", alt)
+            defs = [g for g in prog.functions.get(callee, []) if g.unit == f.unit] or prog.functions.get(callee, [])
+            if k is None or len(defs) != 1 or depth > 2 or int(k.group(1)) >= len(defs[0].params):
+                return "comes from %s, which is not known to make a new object" % alt[:90]
+            g = defs[0]
+            outs = list(stores_through_param(g, g.params[int(k.group(1))]["n"]))
+            if not outs:
+                return "%s never stores its result" % callee
+            for b2, i2, n2 in outs:
+                why = fresh(g, b2, i2, n2["r"], depth + 1)
+                if why:
+                    return "%s hands out something that %s" % (callee, why)
+        return None
+    nsites = 0
+    lists = {lvalue_key(n["r"], fo) for b, i, n in fo.nodes()
+             if n.get("k") == "asg" and (lvalue_key(n["l"], fo) or "").endswith("->sig->aggregationChainList")}
+    for b, i, n in fo.calls("KSI_AggregationHashChainList_append"):
+        if lvalue_key(n["a"][0], fo) not in lists and not (lvalue_key(n["a"][0], fo) or "").endswith("->sig->aggregationChainList"):
+            continue
+        nsites += 1
+        why = fresh(fo, b, i, n["a"][1]) if inplace else None
+        chk.ob("C07.private", "openFromAggregationResp:chain", why is None,
+               ("close() edits the first chain in place (%s); the chain put into the signature " % inplace if inplace else "nothing is edited in place; the chain ") +
+               ("is a new object" if why is None else why), loc=fo.loc(fo.elem_line(b, i)), fn=fo, nontrivial=bool(inplace))
+    if nsites == 0:
+        raise AnalysisBroken("openFromAggregationResp: no chain is appended to the list that becomes the signature's aggregation chain list")
+
     # sign request
     fr = prog.fn("KSI_createSignRequest", "signature.c")
     cp, hp, lv, rq = [p["n"] for p in fr.params]
